@@ -3,7 +3,6 @@ package webrtc
 import (
 	"bytes"
 	"fmt"
-	"os"
 	"strings"
 	"sync"
 	"sync/atomic"
@@ -697,13 +696,19 @@ func TestVerifC19(t *testing.T) { //nolint:gocognit,cyclop,maintidx
 		"64..1023, or up to 65534); all 6 channel types, random labels/protocols/reliability values; every reliable ordered channel carries 20–200 messages "+
 		"per direction (text/binary, sizes 0,1,2, ~MTU, 16 KiB±1, 64 KiB−k..64 KiB, random), sent after a barrier or straight from OnOpen, optionally "+
 		"closed by the sender right after its last Send. A pair is non-trivial when ≥ 20 messages crossed a reliable ordered channel in one direction "+
-		"and the network reordered at least one datagram; distinct by the generated channel/message plan")
+		"and the network reordered at least one datagram; distinct by the generated channel/message plan. Second part (case indices from 1000000, loopback "+
+		"pairs, SettingEngine SCTP RTO cap 50–200 ms): 1–16 application goroutines per peer (one peer may stay idle; optional goroutines polling "+
+		"SCTP().State/BufferedAmount) call CreateDataChannel in a loop that is started by a trigger (after signalling / ICE, DTLS, PeerConnection connected / "+
+		"the remote SCTP transport connected, +0–600 us) and ends a few channels after the goroutine has seen its SCTP transport connected, so that channels "+
+		"are created before, while and after the transport starts (20–600 channels per peer, all 6 types, ~12% with an application-chosen id), under a seeded "+
+		"schedule perturbation at the compiled-in yield points (the opener of a channel is delayed inside DataChannel.open's unlocked id generation by a random "+
+		"time whose distribution depends on whether CreateDataChannel or SCTPTransport.Start opens it); oracle: every created channel is announced to the "+
+		"remote peer exactly once (labels are unique) with the created parameters, nothing else is announced, and short message sequences on the channels "+
+		"created closest to the transport's start arrive exactly once, in order, intact; such a pair is non-trivial when a peer's creation loop spanned the "+
+		"start of its SCTP transport and messages were delivered")
 	defer run.Finish()
 	thorough := kit.Tier() == "thorough"
 	n := kit.N(24, 1000)
-	if os.Getenv("C19X") != "" { // TEMP
-		n = 0
-	}
 	var lateTotal, dupTotal, lostTotal, normalTotal atomic.Int64
 	run.Parallel(n, 12, func(i int) {
 		r := run.CaseRand(i)
@@ -1224,6 +1229,45 @@ func TestVerifC19(t *testing.T) { //nolint:gocognit,cyclop,maintidx
 				}
 			}
 		}
+		// ---- announcement oracle: every in-band channel has been announced to the remote peer exactly once (labels are unique
+		// within the pair, so a label identifies one CreateDataChannel call), and nothing else has been announced
+		for peer := 0; peer < 2; peer++ {
+			annIDs := map[string][]string{}
+			remMu.Lock()
+			for _, e := range remotes[peer] {
+				annIDs[e.dc.Label()] = append(annIDs[e.dc.Label()], c19Ptr(e.dc.ID()))
+			}
+			remMu.Unlock()
+			for label, ids := range annIDs {
+				s := byLabel[label]
+				negotiatedLabel := false
+				for _, o := range specs {
+					negotiatedLabel = negotiatedLabel || (o.negotiated() && o.label == label)
+				}
+				switch {
+				case negotiatedLabel: // the statement is about in-band channels
+					run.Count("model_divergence_negotiated_channel_announced", 1)
+				case s == nil || s.creator == peer:
+					run.Violation("remote-announced-channel-never-created", fmt.Sprintf("peer %d announced a channel with label %q (stream id %s), but peer %d never created an in-band channel with that label",
+						peer, firstN(label, 40), ids[0], 1-peer), i, map[string]any{"label_hex": kit.Hex([]byte(label)), "case": desc})
+				case len(ids) > 1:
+					how := "distinct-stream-ids"
+					if len(ids) == 2 && ids[0] == ids[1] {
+						how = "same-stream-id"
+					}
+					idMode := "auto-id"
+					if s.idMode != c19IDAuto {
+						idMode = "explicit-id"
+					}
+					run.Violation("inband-channel-announced-more-than-once:"+how+":"+idMode+":created-"+c19WhenNames[s.when],
+						fmt.Sprintf("peer %d called CreateDataChannel once for channel %d (label %q, %s, created %s; it reports stream id %s), but peer %d's OnDataChannel fired %d times for that label, with stream ids %v",
+							s.creator, s.k, firstN(label, 40), c19IDNames[s.idMode], c19WhenNames[s.when], c19Ptr(s.local.dc.ID()), peer, len(ids), ids), i,
+						map[string]any{"channel": s.k, "announced_stream_ids": ids, "created": c19WhenNames[s.when], "id_mode": c19IDNames[s.idMode], "case": desc})
+				default:
+					run.Count("inband_channels_announced_exactly_once", 1)
+				}
+			}
+		}
 		// ---- last step of some pairs: a channel whose label is long (the API accepts labels up to 65535 bytes). Kept last because
 		// a failure to accept it may stop the remote peer from accepting any further channel.
 		if longLabel > 0 {
@@ -1290,9 +1334,5 @@ func TestVerifC19(t *testing.T) { //nolint:gocognit,cyclop,maintidx
 	run.Set("datagrams_lost", lostTotal.Load())
 
 	// second part: channels created by several goroutines while the data transport comes up (c19_bringup_test.go)
-	nbu := kit.N(60, 1500)
-	if os.Getenv("C19N") != "" {
-		fmt.Sscan(os.Getenv("C19N"), &nbu)
-	}
-	c19BringUp(run, nbu, 4)
+	c19BringUp(run, kit.N(80, 800), 4)
 }
